@@ -28,7 +28,7 @@ LEVEL_NOTE = "Trusts py_gql.lang.parse to build the AST handed to the rule (cove
 DESIGN_REF = "DESIGN.md section 6, C19"
 RULE = (
     "cases = all selection trees with <= N nodes over {leaf a, second spread of fragment 1 or 2, t{..}, ...{..}, ... on Query{..}, ...Frag{..}} width<=2 (acyclic), "
-    "plus single deviations (directive variant / @skip and @include together in both orders / alias / duplicated spread) at every node, plus two-operation documents x operation_name; "
+    "plus single deviations (directive variant / @skip and @include together in both orders / alias / duplicated spread) at every node, plus the same selections as mutation / subscription operations, two-operation documents x operation_name; "
     "evaluation = one rule call (document, limit, variables); non-trivial = distinct (document, variables) whose reference depth >= 1 "
     "or that contains a fragment or directive"
 )
@@ -42,7 +42,7 @@ BOUNDS = {
 }
 TIME_CAP = {"quick": 120, "thorough": 1500}
 
-SDL = "type Query { a: Int  t: Query }"
+SDL = "type Query { a: Int  t: Query }  type Mutation { a: Int  t: Query }  type Subscription { a: Int  t: Query }"
 
 # ------------------------------------------------------------------------------------------
 # enumeration
@@ -281,7 +281,20 @@ def materialise(desc):
         if d is None:
             return []
         sels, frags = d
-        return [_mk_case([_op(None, sels)], frags, tag="base/n=%d" % n, xv=(n <= 4))]
+        out = [_mk_case([_op(None, sels)], frags, tag="base/n=%d" % n, xv=(n <= 4))]
+        # the same selection as a mutation / subscription (root fields only at the top: fragments are `on Query`)
+        ss = _wellformed_sets(n)[i]
+        if n <= 6 and all(x[0] in ("a", "t") for x in ss):
+            for opkind in ("mutation", "subscription"):
+                if opkind == "subscription" and len(ss) != 1:
+                    continue
+                op = _op(None, _copy(sels))
+                op["kind"] = opkind
+                out.append(_mk_case([op], _copy(frags), tag="kind/%s" % opkind, xv=(n <= 4)))
+                named = _op("Named", _copy(sels))
+                named["kind"] = opkind
+                out.append(_mk_case([named, _op("Shallow", [["f", "a", None, [], {}, None]])], _copy(frags), tag="kind/%s" % opkind))
+        return out
     if kind == "dev":
         _, n, i = desc
         d = _to_doc(_wellformed_sets(n)[i])
@@ -490,6 +503,9 @@ def evaluate(case, st=None):
                     validators=[MaxDepthValidationRule(limit, operation_name=opname)],
                     variables=variables,
                 ).errors
+            elif limit == 0 and not variables:
+                # documents without variables: the variables argument may be omitted altogether
+                errs = list(MaxDepthValidationRule(limit, operation_name=opname)(schema, ast))
             else:
                 errs = list(MaxDepthValidationRule(limit, operation_name=opname)(schema, ast, variables))
         except Exception as e:  # noqa
